@@ -382,6 +382,15 @@ func init() {
 		ConformanceQuick: 48, ConformanceThorough: 400,
 	})
 	props = append(props, &PropDef{
+		ID: "C16", Title: "Emitting through Clone and Append is equivalent to emitting directly", Level: "model_checking",
+		Patterns: []string{"verif/harness/c16"}, PermuteMaps: false,
+		Jobs:             c16Jobs,
+		Bounds:           []string{"call sequences of at most 3 (thorough 4) calls from a 12-entry alphabet (instructions with symbolic operands, SEP/REP with symbolic masks, two labels, relative and absolute references to them, data, comments, a width-guarded immediate), every split point, base unset/symbolic, listing on/off, tracked flags symbolic", "Append at capacities from ample to 3 bytes short"},
+		Outside:          []string{"longer sequences; more than two labels", "map iteration order inside Clone/Append/Finalize is taken in insertion order here (all orders are explored in C06)"},
+		Explanation:      "differential: the same real code fed directly vs. through Clone+Append; all observable getters, the text listing and the Finalize result are compared",
+		ConformanceQuick: 48, ConformanceThorough: 400,
+	})
+	props = append(props, &PropDef{
 		ID: "C17", Title: "15-bit colour packing is lossless and MulDiv scales with saturation", Level: "model_checking",
 		Patterns: []string{"verif/harness/c17"},
 		Jobs: func(tier string) []sym.Job {
@@ -577,6 +586,74 @@ func c15Jobs(tier string) []sym.Job {
 		for _, t := range [][]int{{5, 14, 6}, {6, 13, 5}, {2, 15, 3}, {7, 9, 5}, {12, 12, 12}, {4, 5, 7}, {14, 1, 14}, {3, 10, 15}} {
 			add(t, 0, 1, 1)
 			add(t, 1, 0, 0)
+		}
+	}
+	return js
+}
+
+func c16Jobs(tier string) []sym.Job {
+	var js []sym.Job
+	k := 3
+	if tier == "thorough" {
+		k = 4
+	}
+	alphabet := 12
+	var rec func(ops []int)
+	emit := func(ops []int) {
+		var prog int64
+		name := ""
+		for i := len(ops) - 1; i >= 0; i-- {
+			prog = prog<<4 | int64(ops[i])
+		}
+		sum := 0
+		for _, o := range ops {
+			name += fmt.Sprintf("%x", o)
+			sum += o
+		}
+		for split := 0; split <= len(ops); split++ {
+			base, listing := (sum+split)%2, (sum/2+split)%2
+			if tier == "thorough" || len(ops) < 3 {
+				for cfg := 0; cfg < 4; cfg++ {
+					js = append(js, job("c16", "Split", fmt.Sprintf("c16/seq-%s/split%d/base%d/listing%d", name, split, cfg&1, cfg>>1), prog, int64(len(ops)), int64(split), int64(cfg&1), int64(cfg>>1)))
+				}
+				continue
+			}
+			js = append(js, job("c16", "Split", fmt.Sprintf("c16/seq-%s/split%d/base%d/listing%d", name, split, base, listing), prog, int64(len(ops)), int64(split), int64(base), int64(listing)))
+		}
+	}
+	rec = func(ops []int) {
+		if len(ops) > 0 {
+			emit(ops)
+		}
+		if len(ops) == k {
+			return
+		}
+		for o := 1; o <= alphabet; o++ {
+			// a label may be defined once
+			dup := false
+			for _, p := range ops {
+				if (o == 5 || o == 6) && p == o {
+					dup = true
+				}
+			}
+			if dup {
+				continue
+			}
+			rec(append(append([]int{}, ops...), o))
+		}
+	}
+	rec(nil)
+	for cp := 2; cp <= 8; cp++ {
+		for head := 0; head <= 3 && head <= cp; head++ {
+			for tail := 0; tail <= 3; tail++ {
+				d := head + tail + 2 - cp
+				if d < -1 || d > 3 {
+					continue
+				}
+				for listing := 0; listing < 2; listing++ {
+					js = append(js, job("c16", "AppendTooBig", fmt.Sprintf("c16/append-capacity/cap%d/head%d/tail%d/listing%d", cp, head, tail, listing), int64(cp), int64(head), int64(tail), int64(listing)))
+				}
+			}
 		}
 	}
 	return js
